@@ -176,6 +176,11 @@ class Roles:
                 b = self.m.resolve_name(fn, n.args[0].id)
                 if b.kind == "modvar" and (b.target[0].short, b.target[1]) in self.thread_locals:
                     self.ops.append(StorageOp(fn, (b.target[0].short, b.target[1]), "?", "store", n))
+        if isinstance(n, ast.Call) and isinstance(n.func, ast.Name) and n.func.id in ("getattr", "hasattr") and len(n.args) >= 2 \
+                and isinstance(n.args[0], ast.Name) and isinstance(n.args[1], ast.Constant) and isinstance(n.args[1].value, str):
+            b = self.m.resolve_name(fn, n.args[0].id)
+            if b.kind == "modvar" and (b.target[0].short, b.target[1]) in self.thread_locals:
+                self.ops.append(StorageOp(fn, (b.target[0].short, b.target[1]), n.args[1].value, "load", n))
         if isinstance(n, (ast.Attribute, ast.Subscript)):
             if isinstance(n.ctx, ast.Store):
                 rec(n, "store")
